@@ -19,7 +19,7 @@ import scipy.sparse.linalg
 from wntr.sim.solvers import NewtonSolver, SolverStatus
 import wntr.sim.core as core
 
-P = ["C16", "C01"]
+P = ["C16", "C01", "C02", "C07", "C08"]      # every law of the hydraulic model holds at a reported step only because "converged" means the loaded residual is below tol
 V = z3.DeclareSort("Vec")
 RES = z3.Function("R", V, V)                       # residual vector of the model at x
 NORM = z3.Function("norm_inf", V, z3.RealSort())   # max(abs(v))
@@ -319,6 +319,6 @@ CONTRACTS = [
                       "numpy: np.max(abs(r)) is the infinity norm; x + alpha*d is a vector",
                       "scipy.sparse.linalg.spsolve returns some vector or raises MatrixRankWarning"],
              note="requires maxiter >= 1 and bt_maxiter >= 1 (with 0 the final return / the line-search check read an unbound loop variable)"),
-    Contract("wntr.sim.core:_solver_helper", ["C16"], [_helper_case("newton"), _helper_case("fsolve"), _helper_case("krylov"), _helper_case("unknown")], models=_helper_models2,
+    Contract("wntr.sim.core:_solver_helper", ["C16", "C01"], [_helper_case("newton"), _helper_case("fsolve"), _helper_case("krylov"), _helper_case("unknown")], models=_helper_models2,
              interpret_always=(NewtonSolver,)),
 ]
